@@ -329,7 +329,7 @@ UNITS['seq_is'] = {
 for fn, short, e in (('COST', 'cost', 'c'), ('IS_COMPLETED', 'completed', 'k')):
     for part in ('init', 'iter', 'exit'):
         ob(name='seq_is.%s.%s' % (short, part), kind='IS', props=['C02', 'C05', 'C06'] if short == 'cost' else ['C06'], unit='seq_is', harness='h_seq_is.c', entry='%s_%s' % (e, part),
-           outline={'COST': 'cost', 'IS_COMPLETED': 'completed'}, enforce='%s__%s' % (short, part), min_reach=1,
+           outline={fn: short}, defines={'WANT_' + short.upper(): 1}, enforce='%s__%s' % (short, part), min_reach=1,
            bound='none: sequences of any length < 2^32 handles (inductive invariant over the outlined loop of the real function)')
 LEVELS['C06'] = 'proof'; LEVELS['C05'] = 'proof'
 
@@ -345,7 +345,7 @@ UNITS['clause_is'] = {
 for short, e, parts in (('mcond', 'm', ('init', 'iter', 'exit')), ('ract', 'a', ('iter', 'exit'))):
     for part in parts:
         ob(name='clause_is.%s.%s' % ('match_conditions' if short == 'mcond' else 'action_loop', part), kind='IS', props=['C08'], unit='clause_is', harness='h_clause_is.c', entry='%s_%s' % (e, part),
-           outline={'MATCH_CONDITIONS': 'mcond', 'RUN_ACTIONS': 'ract'}, enforce='%s__%s' % (short, part), min_reach=1, allow_nobody=['f__ZN11trompeloeil8get_lock', 'vpx_', 'vs_', 'f__ZN11trompeloeil21report_forbidden', 'f__ZN11trompeloeil13params_string'],
+           outline={'MATCH_CONDITIONS' if short == 'mcond' else 'RUN_ACTIONS': short}, defines={'WANT_' + short.upper(): 1}, enforce='%s__%s' % (short, part), min_reach=1, allow_nobody=['f__ZN11trompeloeil8get_lock', 'vpx_', 'vs_', 'f__ZN11trompeloeil21report_forbidden', 'f__ZN11trompeloeil13params_string'],
            bound='none: any number of WITH clauses / side effects (inductive invariant over the outlined loop of the real function)')
 LEVELS['C08'] = 'proof'
 
